@@ -27,6 +27,15 @@ type catItem struct {
 	N    int    `json:"n"`
 }
 
+// catBigMap: a map beyond the sizes at which sorts and maps change their ways (12 elements, 8 per bucket)
+func catBigMap(n int) map[string]any {
+	m := map[string]any{}
+	for i := 0; i < n; i++ {
+		m[string(rune('a'+(i*7)%26))+string(rune('a'+i))] = i
+	}
+	return m
+}
+
 func catData(extra map[string]any) func(string) map[string]any {
 	return func(canary string) map[string]any {
 		m := map[string]any{
@@ -46,6 +55,8 @@ func catData(extra map[string]any) func(string) map[string]any {
 			"url":    "/a?b=1&c=2",
 			"mi":     map[int]string{3: "c", 1: "a", 2: "b", 10: "j"},
 			"mf":     map[float64]string{1.5: "x", 0.5: "y", 2: "z"},
+			"m13":    catBigMap(13),
+			"m9":     catBigMap(9),
 		}
 		for k, v := range extra {
 			m[k] = v
@@ -94,6 +105,7 @@ var CatalogFiles = Files{
 	"p_if.vuego":                `<div v-if="hide">A</div><div v-else-if="n == 3">B{{ canary }}</div><div v-else>C</div><p v-if="show">S</p>`,
 	"p_for.vuego":               `<ul><li v-for="(i, it) in items" :data-i="i">{{ it }}{{ canary }}</li><li v-else>none</li></ul>`,
 	"p_formap.vuego":            `<ul><li v-for="v in m">{{ v }}</li></ul><p>{{ canary }}</p>`,
+	"p_formapbig.vuego":         `<ul><li v-for="(i, v) in m13" :data-i="i">{{ v }}</li></ul><ol><li v-for="v in m9">{{ v }}</li></ol><p>{{ canary }}</p>`,
 	"p_formapkeys.vuego":        `<ul><li v-for="v in mi">{{ v }}</li><li v-for="(i, v) in mf">{{ i }}={{ v }}</li><li v-for="(i, v) in user">{{ i }}</li><li v-for="v in mx">{{ v }}</li></ul><p>{{ canary }}</p>`,
 	"p_nested.vuego":            `<div v-for="row in rows"><span v-for="c in row">{{ c }}</span></div><p>{{ canary }}</p>`,
 	"p_attrs.vuego":             `<a :href="url" :title="title" :data-c="canary" :id="color" :class="color" class="base" rel="x">L</a>`,
@@ -155,6 +167,7 @@ var Catalog = func() []Program {
 		{Name: "for", Page: "p_for.vuego", Data: d},
 		{Name: "formap", Page: "p_formap.vuego", Data: d},
 		{Name: "formapkeys", Page: "p_formapkeys.vuego", Data: d},
+		{Name: "formapbig", Page: "p_formapbig.vuego", Data: d},
 		{Name: "nested", Page: "p_nested.vuego", Data: d},
 		{Name: "attrs", Page: "p_attrs.vuego", Data: d},
 		{Name: "style", Page: "p_style.vuego", Data: d},
